@@ -34,6 +34,9 @@ def _value(f, idx, is_subject, b):
         if t in ('char', 'signed char', 'const char') and b >= 128:
             return b - 256
         return b
+    li = _local_init(f, n)
+    if li is not None:
+        return _value(f, li, is_subject, b)
     if n['k'] == 'cast':
         v = _value(f, n['e'], is_subject, b)
         if v is None:
@@ -67,9 +70,29 @@ def _value(f, idx, is_subject, b):
     return None
 
 
+_INIT_CACHE = {}
+
+
+def _local_init(f, n):
+    """initialiser of a local that is initialised at its declaration and never written again (a named sub-expression), else None"""
+    if n['k'] != 'ref' or n.get('sk') != 'local' or 'id' not in n:
+        return None
+    key = (id(f), n['id'])
+    if key not in _INIT_CACHE:
+        from .expr import defs_in_node
+        inits = [d.get('init') for m in f.nodes if m['k'] == 'declstmt' for d in m['decls'] if d['id'] == n['id']]
+        written = any(v == n['id'] for m in f.nodes if m['k'] != 'declstmt' for (v, st, vx) in defs_in_node(f, m))
+        _INIT_CACHE[key] = inits[0] if (len(inits) == 1 and inits[0] is not None and inits[0] >= 0 and not written) else None
+    return _INIT_CACHE[key]
+
+
 def _truth(f, idx, is_subject, b):
     n = f.nodes[idx]
     k = n['k']
+    if not is_subject(n['i']):
+        li = _local_init(f, n)
+        if li is not None:
+            return _truth(f, li, is_subject, b)
     if k == 'unop' and n['op'] == '!':
         t = _truth(f, n['e'], is_subject, b)
         return None if t is None else (not t)
